@@ -197,6 +197,9 @@ func (e *Eth) Plan(c *Ctx) []hist.TxSpec {
 	case e.n == 1:
 		out = append(out, e.submit(c, e.newOp(c, "lock", us[0], big.NewInt(1000000000000000), "yes"), "lock (will be confirmed)"))
 		out = append(out, e.submit(c, e.newOp(c, "lock", us[1], big.NewInt(222000000000000), "no"), "lock (witnesses will report failure)"))
+		// a lock of more than 2^63 wei (ten ether and a bit)
+		ten, _ := new(big.Int).SetString("10000000000000000777", 10)
+		out = append(out, e.submit(c, e.newOp(c, "lock", us[3%len(us)], ten, "yes"), "lock of ten ether (will be confirmed)"))
 		if !e.NoERC {
 			out = append(out, e.submit(c, e.newOp(c, "erclock", us[2], big.NewInt(5000000000000), "yes"), "erc20 lock (will be confirmed)"))
 		}
